@@ -14,3 +14,6 @@ import MidoProofs.SrcTie.Vlq
 #print axioms Mido.src_meta_time_signature_decode
 #print axioms Mido.src_encode_variable_int
 #print axioms Mido.src_encode_variable_int_neg
+#print axioms Mido.and_pred_eq_zero_iff
+#print axioms Mido.isPow2_iff
+#print axioms Mido.src_meta_time_signature_check
